@@ -98,14 +98,19 @@ func parseInto(tmpl *Msg, wire []byte, strict bool) ParseObs {
 		po.Err = "harness: " + err.Error()
 		return po
 	}
-	// (the bytes handed to the parser are left alone afterwards: the unchanged library keeps Raw and Float values as slices of the
-	// caller's buffer, so "what was parsed survives a reuse of the buffer" is not something the properties promise - see DESIGN 0.5, C17j)
+	// the bytes are parsed from a receive buffer of the caller's, which the caller reuses as soon as the call has returned (here:
+	// overwrites): what was populated by parsing is the message's, not the buffer's (C17: "populated ... by parsing ... the
+	// canonical text of its value")
+	rx := append([]byte{}, wire...)
 	err, pn := safely(func() error {
 		if strict {
-			return encoding.Unmarshal(target, wire)
+			return encoding.Unmarshal(target, rx)
 		}
-		return encoding.DefaultUnmarshaller{Strict: false, Validator: encoding.DefaultValidator{}}.Unmarshal(target, wire)
+		return encoding.DefaultUnmarshaller{Strict: false, Validator: encoding.DefaultValidator{}}.Unmarshal(target, rx)
 	})
+	for i := range rx {
+		rx[i] = 'X'
+	}
 	if pn != "" {
 		po.Err = "panic: " + pn
 		return po
